@@ -951,6 +951,16 @@ def edit_after_construction(rng, wn, wntr):
             put(l, "bulk_coeff", rng.choice([None, -2e-6]))
             put(l, "wall_coeff", rng.choice([None, -1e-7]))
             put(l, "vertices", [(1.5, 2.5)] if rng.random() < 0.5 else [])
+        if rng.random() < 0.4:
+            # a polyline with the same point twice in a row, filled the way read_inpfile fills it (list.append), and via the setter
+            pt = (round(rng.uniform(0, 9), 1), round(rng.uniform(0, 9), 1))
+            if rng.random() < 0.6:
+                l.vertices.append(pt)
+                l.vertices.append(pt)
+                l.vertices.append((pt[0] + 1.0, pt[1]))
+                done.add("Pipe.vertices:append-repeated-point")
+            else:
+                put(l, "vertices", list(l.vertices) + [pt, pt])
     for _, l in wn.pumps():
         if rng.random() < 0.5:
             put(l, "base_speed", rng.choice([0.7, 1.0, 1.2]))
@@ -1218,7 +1228,49 @@ class C13(Check):
             empty = wntr.network.WaterNetworkModel()
             return wntr.network.to_dict(wntr.network.from_dict(d, append=empty))
 
-        return [("dict", p_dict), ("json", p_json), ("file", p_file), ("append", p_append), ("reuse", p_reuse)]
+        # every entrance x append: what counts is the model that was PASSED as `append` (the statement: appending a dictionary to an
+        # empty model equals creating the model from it), not only the return value
+        def p_append_passed():
+            empty = wntr.network.WaterNetworkModel()
+            wntr.network.from_dict(copy.deepcopy(d0), append=empty)
+            return wntr.network.to_dict(empty)
+
+        def p_method():
+            empty = wntr.network.WaterNetworkModel()
+            empty.from_dict(copy.deepcopy(d0))
+            return wntr.network.to_dict(empty)
+
+        def p_file_append(stream):
+            def run():
+                fn = os.path.join(tmpdir, "ma.json")
+                wntr.network.write_json(wn, fn)
+                empty = wntr.network.WaterNetworkModel()
+                try:
+                    if stream:
+                        with open(fn, "r") as fh:
+                            wntr.network.read_json(fh, append=empty)
+                    else:
+                        wntr.network.read_json(fn, append=empty)
+                    return wntr.network.to_dict(empty)
+                finally:
+                    if os.path.exists(fn):
+                        os.remove(fn)
+            return run
+
+        def p_stream():
+            fn = os.path.join(tmpdir, "ms.json")
+            with open(fn, "w") as fh:
+                wntr.network.write_json(wn, fh)
+            try:
+                with open(fn, "r") as fh:
+                    return wntr.network.to_dict(wntr.network.read_json(fh))
+            finally:
+                if os.path.exists(fn):
+                    os.remove(fn)
+
+        return [("dict", p_dict), ("json", p_json), ("file", p_file), ("append", p_append), ("reuse", p_reuse),
+                ("append-passed-model", p_append_passed), ("wn.from_dict", p_method), ("read_json-path-append", p_file_append(False)),
+                ("read_json-stream-append", p_file_append(True)), ("stream", p_stream)]
 
     def correspondence(self, ctx):
         wntr = vlib.import_wntr()
